@@ -562,6 +562,16 @@ class PageXMLTableCell(PageXMLDoc):
         self.add_to_pagexml(tr_xml)
 
 
+def set_scan_id(doc: PageXMLDoc, scan_id: str):
+    """Record the id of the scan in the metadata of a document and of every document below it."""
+    doc.metadata['scan_id'] = scan_id
+    for child_type in ('pages', 'columns', 'extra', 'text_regions', 'table_regions',
+                       'rows', 'cells', 'lines', 'words'):
+        for child in getattr(doc, child_type, None) or []:
+            if isinstance(child, PageXMLDoc):
+                set_scan_id(child, scan_id)
+
+
 class PageXMLTextRegion(PageXMLDoc):
 
     # main type of the class, known before the children are attached in __init__
@@ -624,6 +634,8 @@ class PageXMLTextRegion(PageXMLDoc):
             self.set_as_parent([child])
         else:
             raise TypeError(f'unknown child type: {child.__class__.__name__}')
+        if 'scan_id' in self.metadata:
+            set_scan_id(child, self.metadata['scan_id'])
         self.coords = parse_derived_coords(self.text_regions + self.lines)
 
     @property
@@ -865,6 +877,8 @@ class PageXMLPage(PageXMLTextRegion):
             self.text_regions.append(child)
         else:
             raise TypeError(f'unknown child type: {child.__class__.__name__}')
+        if 'scan_id' in self.metadata:
+            set_scan_id(child, self.metadata['scan_id'])
         self.coords = parse_derived_coords(self.extra + self.columns + self.text_regions + self.lines)
 
     def get_all_text_regions(self):
@@ -989,16 +1003,10 @@ class PageXMLScan(PageXMLTextRegion):
             self.text_regions.append(child)
         elif isinstance(child, PageXMLTextLine):
             self.lines.append(child)
+        set_scan_id(child, self.id)
 
     def set_scan_id_as_metadata(self):
-        self.metadata['scan_id'] = self.id
-        for tr in self.get_all_text_regions():
-            tr.metadata['scan_id'] = self.id
-        for line in self.get_lines():
-            line.metadata['scan_id'] = self.id
-        for word in self.get_words():
-            if isinstance(word, PageXMLWord):
-                word.metadata['scan_id'] = self.id
+        set_scan_id(self, self.id)
 
     @property
     def json(self) -> Dict[str, any]:
